@@ -766,4 +766,262 @@ theorem openSinks_matches_source (P : Par) (outs errs ev : List Val) (fl0 : Env)
       .done (openSinksSpec P outs errs ev).1 (("ev", .list (openSinksSpec P outs errs ev).2) :: fl0) :=
   run_of_fin (X P) _ _ Gen.TransOpen.openSinks _ _ _ _ rfl rfl (openSinks_exec_matches_source P outs errs ev fl0 hO hE fuel)
 
+/-! ### `Config.buildEncoder`, `Config.buildOptions`, `Config.Build` -/
+
+theorem buildEncoder_exec_matches_source (P : Par) (enc cfg : Val) (ev : List Val) (fl0 : Env)
+    (hN : Env.get "encoding" fl0 = some enc) (hC : Env.get "encoderConfig" fl0 = some cfg) (fuel : Nat) :
+    (exec (X P) (fuel + 1) buildEncoder_body ⟨[], ("ev", .list ev) :: fl0⟩).fin =
+      some ([.list (P.newEncoder enc cfg).1, .list (P.newEncoder enc cfg).2],
+        ("ev", .list (ev ++ [.list [TransOpen.nm "newEncoder", enc, cfg]])) :: fl0) := by
+  rw [exec_succ]
+  simp [buildEncoder_body, Env.get, Env.set, hN, hC, nm_newEncoder]
+
+/-- `buildEncoder` hands the configured name and encoder configuration, as they are, to the registry — once -/
+theorem buildEncoder_matches_source (P : Par) (enc cfg : Val) (ev : List Val) (fl0 : Env)
+    (hN : Env.get "encoding" fl0 = some enc) (hC : Env.get "encoderConfig" fl0 = some cfg) (fuel : Nat) :
+    run (X P) (fuel + 1) "buildEncoder" [] (("ev", .list ev) :: fl0) =
+      .done [.list (P.newEncoder enc cfg).1, .list (P.newEncoder enc cfg).2]
+        (("ev", .list (ev ++ [.list [TransOpen.nm "newEncoder", enc, cfg]])) :: fl0) :=
+  run_of_fin (X P) _ _ Gen.TransOpen.buildEncoder _ _ _ _ rfl rfl (buildEncoder_exec_matches_source P enc cfg ev fl0 hN hC fuel)
+
+/-- the source text of the sampler-wrapping literal, as the translation of `buildOptions` carries it -/
+def samplerText : Val :=
+  match buildOptions_body.tl.tl.tl.tl.tl.tl.hd with
+  | .seq _ (.ite _ (.assign _ [.call _ [_, .call _ [.call _ (.lit t :: _)]]]) _) => t
+  | _ => .list []
+
+/-- the options `Build` passes to `New`, in order: the error output; Development; AddCaller unless disabled;
+    AddStacktrace (at Warn in development, else Error) unless disabled; the sampler wrapper iff Sampling is set (the closure
+    holds the sampling configuration); the initial fields iff there are any — one `Any` per key, in SORTED key order -/
+def optsSpec (P : Par) (errSink : Val) (dev dc ds : Bool) (samp ifs : List Val) : List Val :=
+  [conV "ErrorOutput" [errSink]]
+  ++ (if dev then [conV "Development" []] else [])
+  ++ (if dc then [] else [conV "AddCaller" []])
+  ++ (if ds then [] else [conV "AddStacktrace" [.int (if dev then 1 else 2)]])
+  ++ (if samp.isEmpty then [] else [conV "WrapCore" [.list [samplerText, .list samp, .list samp]]])
+  ++ (if ifs.isEmpty then [] else
+        [conV "Fields" [.list ((P.sort (P.keys (.list ifs))).map fun k => conV "Any" [k, P.mapGet (.list ifs) k])]])
+
+def boJunk : Option Val → Env
+  | none => []
+  | some v => [("l5", v)]
+
+theorem buildOptions_keys_loop (P : Par) (rec : Stmt → State → GoMini.Out) (p0 l0 l1 l2 l3 : Val) (fl : Env) :
+    ∀ (ks acc : List Val) (i : Nat) (t : Option Val),
+    ∃ t', rangeRun (execS (X P) rec buildOptions_loop0.rbody) .blank (.loc "l5") ks i
+        ⟨[("p0", p0), ("l0", l0), ("l1", l1), ("l2", l2), ("l3", l3), ("l4", .list acc)] ++ boJunk t, fl⟩ =
+      .normal ⟨[("p0", p0), ("l0", l0), ("l1", l1), ("l2", l2), ("l3", l3), ("l4", .list (acc ++ ks))] ++ boJunk t', fl⟩ := by
+  intro ks
+  induction ks with
+  | nil => intro acc i t; exact ⟨t, by simp [rangeRun]⟩
+  | cons k r ih =>
+    intro acc i t
+    obtain ⟨t', h⟩ := ih (acc ++ [k]) (i + 1) (some k)
+    refine ⟨t', ?_⟩
+    cases t <;>
+      simp [rangeRun, buildOptions_loop0, Stmt.rbody, boJunk, State.assign1, Env.set] <;>
+      simpa [boJunk, buildOptions_loop0, Stmt.rbody, List.append_assoc] using h
+
+theorem buildOptions_fields_loop (P : Par) (rec : Stmt → State → GoMini.Out) (p0 l0 l1 l2 l4 m : Val) (fl : Env)
+    (hm : Env.get "initialFields" fl = some m) (t5 : Option Val) :
+    ∀ (ks acc : List Val) (i : Nat) (t : Option Val),
+    ∃ t', rangeRun (execS (X P) rec buildOptions_loop1.rbody) .blank (.loc "l6") ks i
+        ⟨[("p0", p0), ("l0", l0), ("l1", l1), ("l2", l2), ("l3", .list acc), ("l4", l4)] ++ boJunk t5 ++
+          (match t with | some v => [("l6", v)] | none => []), fl⟩ =
+      .normal ⟨[("p0", p0), ("l0", l0), ("l1", l1), ("l2", l2),
+          ("l3", .list (acc ++ ks.map fun k => conV "Any" [k, P.mapGet m k])), ("l4", l4)] ++ boJunk t5 ++
+          (match t' with | some v => [("l6", v)] | none => []), fl⟩ := by
+  intro ks
+  induction ks with
+  | nil => intro acc i t; exact ⟨t, by cases t <;> simp [rangeRun]⟩
+  | cons k r ih =>
+    intro acc i t
+    obtain ⟨t', h⟩ := ih (acc ++ [conV "Any" [k, P.mapGet m k]]) (i + 1) (some k)
+    refine ⟨t', ?_⟩
+    cases t5 <;> cases t <;>
+      simp [rangeRun, buildOptions_loop1, Stmt.rbody, boJunk, State.assign1, Env.set, hm] <;>
+      simpa [boJunk, buildOptions_loop1, Stmt.rbody, List.append_assoc] using h
+
+/-- the options before the initial fields -/
+def opts7 (errSink : Val) (dev dc ds : Bool) (samp : List Val) : List Val :=
+  [conV "ErrorOutput" [errSink]]
+  ++ (if dev then [conV "Development" []] else [])
+  ++ (if dc then [] else [conV "AddCaller" []])
+  ++ (if ds then [] else [conV "AddStacktrace" [.int (if dev then 1 else 2)]])
+  ++ (if samp.isEmpty then [] else [conV "WrapCore" [.list [samplerText, .list samp, .list samp]]])
+
+set_option maxRecDepth 8000 in
+theorem buildOptions_prefix (P : Par) (rec : Stmt → State → GoMini.Out) (errSink : Val) (dev dc ds : Bool) (samp : List Val) (fl : Env)
+    (h1 : Env.get "development" fl = some (.bool dev)) (h2 : Env.get "disableCaller" fl = some (.bool dc))
+    (h3 : Env.get "disableStacktrace" fl = some (.bool ds)) (h4 : Env.get "sampling" fl = some (.list samp)) :
+    execS (X P) rec buildOptions_body ⟨[("p0", errSink)], fl⟩ =
+      execS (X P) rec buildOptions_body.tl.tl.tl.tl.tl.tl.tl
+        ⟨[("p0", errSink), ("l0", .list (opts7 errSink dev dc ds samp)), ("l1", .int (if dev then 1 else 2)), ("l2", .list samp)], fl⟩ := by
+  have hb : buildOptions_body = .seq buildOptions_body.hd (.seq buildOptions_body.tl.hd (.seq buildOptions_body.tl.tl.hd
+      (.seq buildOptions_body.tl.tl.tl.hd (.seq buildOptions_body.tl.tl.tl.tl.hd (.seq buildOptions_body.tl.tl.tl.tl.tl.hd
+      (.seq buildOptions_body.tl.tl.tl.tl.tl.tl.hd buildOptions_body.tl.tl.tl.tl.tl.tl.tl)))))) := rfl
+  rw [hb]
+  generalize buildOptions_body.tl.tl.tl.tl.tl.tl.tl = rest
+  simp only [execS_seq]
+  cases samp with
+  | nil =>
+    cases dev <;> cases dc <;> cases ds <;>
+      simp [buildOptions_body, Stmt.hd, Stmt.tl, h1, h2, h3, h4, opts7, State.assign1, Env.set]
+  | cons x r =>
+    have hp : ¬ ((r.length : Int) + 1 = 0) := by omega
+    cases dev <;> cases dc <;> cases ds <;>
+      simp [buildOptions_body, Stmt.hd, Stmt.tl, h1, h2, h3, h4, hp, opts7, samplerText, State.assign1, Env.set]
+
+set_option maxRecDepth 8000 in
+theorem buildOptions_exec_matches_source (P : Par) (errSink : Val) (dev dc ds : Bool) (samp ifs : List Val) (fl : Env)
+    (h1 : Env.get "development" fl = some (.bool dev)) (h2 : Env.get "disableCaller" fl = some (.bool dc))
+    (h3 : Env.get "disableStacktrace" fl = some (.bool ds)) (h4 : Env.get "sampling" fl = some (.list samp))
+    (h5 : Env.get "initialFields" fl = some (.list ifs)) (fuel : Nat) :
+    (exec (X P) (fuel + 1) buildOptions_body ⟨[("p0", errSink)], fl⟩).fin =
+      some ([.list (optsSpec P errSink dev dc ds samp ifs)], fl) := by
+  rw [exec_succ, buildOptions_prefix P _ errSink dev dc ds samp fl h1 h2 h3 h4]
+  have hspec : optsSpec P errSink dev dc ds samp ifs = opts7 errSink dev dc ds samp ++
+      (if ifs.isEmpty then [] else
+        [conV "Fields" [.list ((P.sort (P.keys (.list ifs))).map fun k => conV "Any" [k, P.mapGet (.list ifs) k])]]) := by
+    simp [optsSpec, opts7, List.append_assoc]
+  rw [hspec]
+  generalize opts7 errSink dev dc ds samp = o
+  generalize (Val.int (if dev then 1 else 2)) = l1
+  cases ifs with
+  | nil => simp [buildOptions_body, Stmt.tl, h5]
+  | cons x r =>
+    have hp : ((r.length : Int) + 1 > 0) := by omega
+    obtain ⟨t5, hk⟩ := buildOptions_keys_loop P (exec (X P) fuel) errSink (.list o) l1 (.list samp) (.list []) fl
+      (P.keys (.list (x :: r))) [] 0 none
+    obtain ⟨t6, hf⟩ := buildOptions_fields_loop P (exec (X P) fuel) errSink (.list o) l1 (.list samp)
+      (.list (P.sort (P.keys (.list (x :: r))))) (.list (x :: r)) fl h5 t5 (P.sort (P.keys (.list (x :: r)))) [] 0 none
+    have hx0 : ∀ σ, execS (X P) (exec (X P) fuel) buildOptions_loop0 σ = execS (X P) (exec (X P) fuel)
+        (.range .blank (.loc "l5") (.call "InitialFields.keys" [.fld "initialFields"]) buildOptions_loop0.rbody) σ := fun _ => rfl
+    have hx1 : ∀ σ, execS (X P) (exec (X P) fuel) buildOptions_loop1 σ = execS (X P) (exec (X P) fuel)
+        (.range .blank (.loc "l6") (.loc "l4") buildOptions_loop1.rbody) σ := fun _ => rfl
+    simp only [boJunk, List.append_nil, List.nil_append] at hk hf
+    simp [buildOptions_body, Stmt.tl, h5, hp, hx0, hx1, State.assign1, Env.set]
+    rw [hk]
+    cases t5 <;>
+      (simp [boJunk, Env.get, Env.set, hx1] at hf ⊢
+       rw [hf]
+       cases t6 <;> simp [Env.get])
+
+/-- **buildOptions_matches_source** -/
+theorem buildOptions_matches_source (P : Par) (errSink : Val) (dev dc ds : Bool) (samp ifs : List Val) (fl : Env)
+    (h1 : Env.get "development" fl = some (.bool dev)) (h2 : Env.get "disableCaller" fl = some (.bool dc))
+    (h3 : Env.get "disableStacktrace" fl = some (.bool ds)) (h4 : Env.get "sampling" fl = some (.list samp))
+    (h5 : Env.get "initialFields" fl = some (.list ifs)) (fuel : Nat) :
+    run (X P) (fuel + 1) "buildOptions" [errSink] fl = .done [.list (optsSpec P errSink dev dc ds samp ifs)] fl :=
+  run_of_fin (X P) _ _ Gen.TransOpen.buildOptions _ _ _ _ rfl rfl
+    (buildOptions_exec_matches_source P errSink dev dc ds samp ifs fl h1 h2 h3 h4 h5 fuel)
+
+/-- the logger `Build` returns: `New` over the core (encoder, the combined OUTPUT sinks, the level) with `buildOptions`
+    over the combined ERROR sinks, then the caller's options if any -/
+def buildLogger (P : Par) (encoder : List Val) (level : Val) (O E : OA) (dev dc ds : Bool) (samp ifs opts : List Val) : Val :=
+  if opts.isEmpty then
+    .list [conV "zap.New" [conV "zapcore.NewCore" [.list encoder, combineSpec O.w, level],
+      .list (optsSpec P (combineSpec E.w) dev dc ds samp ifs)]]
+  else
+    .list [TransOpen.nm "Logger.WithOptions",
+      .list [conV "zap.New" [conV "zapcore.NewCore" [.list encoder, combineSpec O.w, level],
+        .list (optsSpec P (combineSpec E.w) dev dc ds samp ifs)]], .list opts]
+
+def missingLevel : Bytes := [109, 105, 115, 115, 105, 110, 103, 32, 76, 101, 118, 101, 108]
+
+/-- `Config.Build`: the encoder is built first and its error returned before anything else happens; then the level is
+    checked — BEFORE any sink is opened; then `openSinks`; only if everything succeeded is a logger made -/
+def buildSpec (P : Par) (enc cfg : Val) (level outs errs : List Val) (dev dc ds : Bool) (samp ifs opts ev : List Val) :
+    List Val × List Val :=
+  if (P.newEncoder enc cfg).2.isEmpty then
+    if level.isEmpty then
+      ([.list [], errV "errors.New" [.bytes missingLevel]], ev ++ [.list [TransOpen.nm "newEncoder", enc, cfg]])
+    else if (openR P outs (ev ++ [.list [TransOpen.nm "newEncoder", enc, cfg]])).e.isEmpty then
+      if (openR P errs (openR P outs (ev ++ [.list [TransOpen.nm "newEncoder", enc, cfg]])).ev).e.isEmpty then
+        ([buildLogger P (P.newEncoder enc cfg).1 (.list level) (openR P outs (ev ++ [.list [TransOpen.nm "newEncoder", enc, cfg]]))
+            (openR P errs (openR P outs (ev ++ [.list [TransOpen.nm "newEncoder", enc, cfg]])).ev) dev dc ds samp ifs opts, .list []],
+          (openSinksSpec P outs errs (ev ++ [.list [TransOpen.nm "newEncoder", enc, cfg]])).2)
+      else
+        ([.list [], .list (openR P errs (openR P outs (ev ++ [.list [TransOpen.nm "newEncoder", enc, cfg]])).ev).e],
+          (openSinksSpec P outs errs (ev ++ [.list [TransOpen.nm "newEncoder", enc, cfg]])).2)
+    else
+      ([.list [], .list (openR P outs (ev ++ [.list [TransOpen.nm "newEncoder", enc, cfg]])).e],
+        (openSinksSpec P outs errs (ev ++ [.list [TransOpen.nm "newEncoder", enc, cfg]])).2)
+  else ([.list [], .list (P.newEncoder enc cfg).2], ev ++ [.list [TransOpen.nm "newEncoder", enc, cfg]])
+
+theorem Build_exec_matches_source (P : Par) (enc cfg : Val) (level outs errs : List Val) (dev dc ds : Bool)
+    (samp ifs opts ev : List Val) (fl0 : Env)
+    (hN : Env.get "encoding" fl0 = some enc) (hC : Env.get "encoderConfig" fl0 = some cfg)
+    (hL : Env.get "level" fl0 = some (.list level))
+    (hO : Env.get "outputPaths" fl0 = some (.list outs)) (hE : Env.get "errorOutputPaths" fl0 = some (.list errs))
+    (h1 : Env.get "development" fl0 = some (.bool dev)) (h2 : Env.get "disableCaller" fl0 = some (.bool dc))
+    (h3 : Env.get "disableStacktrace" fl0 = some (.bool ds)) (h4 : Env.get "sampling" fl0 = some (.list samp))
+    (h5 : Env.get "initialFields" fl0 = some (.list ifs)) (fuel : Nat) :
+    (exec (X P) (fuel + 4) Build_body ⟨[("p0", .list opts)], ("ev", .list ev) :: fl0⟩).fin =
+      some ((buildSpec P enc cfg level outs errs dev dc ds samp ifs opts ev).1,
+        ("ev", .list (buildSpec P enc cfg level outs errs dev dc ds samp ifs opts ev).2) :: fl0) := by
+  have he := buildEncoder_exec_matches_source P enc cfg ev fl0 hN hC (fuel + 2)
+  have hs := openSinks_exec_matches_source P outs errs (ev ++ [.list [TransOpen.nm "newEncoder", enc, cfg]]) fl0 hO hE fuel
+  have hopt : ∀ (errSink : Val) (ev' : List Val),
+      (exec (X P) (fuel + 3) buildOptions_body ⟨[("p0", errSink)], ("ev", .list ev') :: fl0⟩).fin =
+        some ([.list (optsSpec P errSink dev dc ds samp ifs)], ("ev", .list ev') :: fl0) := fun errSink ev' =>
+    buildOptions_exec_matches_source P errSink dev dc ds samp ifs _ (by simpa [Env.get] using h1) (by simpa [Env.get] using h2)
+      (by simpa [Env.get] using h3) (by simpa [Env.get] using h4) (by simpa [Env.get] using h5) (fuel + 2)
+  rw [exec_succ]
+  simp only [buildSpec]
+  cases hne : (P.newEncoder enc cfg).2 with
+  | cons e0 es =>
+    have hp : ¬ ((es.length : Int) + 1 = 0) := by omega
+    rw [hne] at he
+    simp [Build_body, retK_of_fin _ _ _ _ _ _ _ he, hp]
+  | nil =>
+    rw [hne] at he
+    cases level with
+    | nil =>
+      simp [Build_body, retK_of_fin _ _ _ _ _ _ _ he, Env.get, hL, Val.beqs, missingLevel, errV]
+    | cons l0 ls =>
+      simp only [openSinksSpec] at hs ⊢
+      generalize openR P outs (ev ++ [.list [TransOpen.nm "newEncoder", enc, cfg]]) = O at hs ⊢
+      obtain ⟨w, c, e, ev1⟩ := O
+      cases e with
+      | cons e0 es =>
+        have hp : ¬ ((es.length : Int) + 1 = 0) := by omega
+        simp only [List.isEmpty_cons, Bool.false_eq_true, if_false] at hs
+        simp [Build_body, retK_of_fin _ _ _ _ _ _ _ he, retK_of_fin _ _ _ _ _ _ _ hs, Env.get, hL, Val.beqs, hp]
+      | nil =>
+        simp only [List.isEmpty_nil, if_true] at hs ⊢
+        generalize openR P errs ev1 = E at hs ⊢
+        obtain ⟨w', c', e', ev2⟩ := E
+        cases e' with
+        | cons e0 es =>
+          have hp : ¬ ((es.length : Int) + 1 = 0) := by omega
+          simp only [List.isEmpty_cons, Bool.false_eq_true, if_false] at hs
+          simp [Build_body, retK_of_fin _ _ _ _ _ _ _ he, retK_of_fin _ _ _ _ _ _ _ hs, Env.get, hL, Val.beqs, hp]
+        | nil =>
+          simp only [List.isEmpty_nil, if_true] at hs
+          have ho := hopt (combineSpec w') ev2
+          cases opts with
+          | nil =>
+            simp [Build_body, retK_of_fin _ _ _ _ _ _ _ he, retK_of_fin _ _ _ _ _ _ _ hs, retK_of_fin1 _ _ _ _ _ _ ho,
+              Env.get, hL, Val.beqs, buildLogger]
+          | cons o0 os =>
+            have hp : ((os.length : Int) + 1 > 0) := by omega
+            simp [Build_body, retK_of_fin _ _ _ _ _ _ _ he, retK_of_fin _ _ _ _ _ _ _ hs, retK_of_fin1 _ _ _ _ _ _ ho,
+              Env.get, hL, Val.beqs, buildLogger, hp]
+
+/-- **Build_matches_source** -/
+theorem Build_matches_source (P : Par) (enc cfg : Val) (level outs errs : List Val) (dev dc ds : Bool)
+    (samp ifs opts ev : List Val) (fl0 : Env)
+    (hN : Env.get "encoding" fl0 = some enc) (hC : Env.get "encoderConfig" fl0 = some cfg)
+    (hL : Env.get "level" fl0 = some (.list level))
+    (hO : Env.get "outputPaths" fl0 = some (.list outs)) (hE : Env.get "errorOutputPaths" fl0 = some (.list errs))
+    (h1 : Env.get "development" fl0 = some (.bool dev)) (h2 : Env.get "disableCaller" fl0 = some (.bool dc))
+    (h3 : Env.get "disableStacktrace" fl0 = some (.bool ds)) (h4 : Env.get "sampling" fl0 = some (.list samp))
+    (h5 : Env.get "initialFields" fl0 = some (.list ifs)) (fuel : Nat) :
+    run (X P) (fuel + 4) "Build" [.list opts] (("ev", .list ev) :: fl0) =
+      .done (buildSpec P enc cfg level outs errs dev dc ds samp ifs opts ev).1
+        (("ev", .list (buildSpec P enc cfg level outs errs dev dc ds samp ifs opts ev).2) :: fl0) :=
+  run_of_fin (X P) _ _ Gen.TransOpen.Build _ _ _ _ rfl rfl
+    (Build_exec_matches_source P enc cfg level outs errs dev dc ds samp ifs opts ev fl0 hN hC hL hO hE h1 h2 h3 h4 h5 fuel)
+
 end ZapVerif.C19
